@@ -196,30 +196,27 @@ Proof. exact run_pipeline_inv. Qed.
 Print Assumptions C19_run_invariant.
 
 (** ** The pipeline cache between pype and the look-up
+    ([Loader.get_pipeline], keyed by the pair [(f'{parent}' if parent else None, name)] since
+    /repo commit 0c7650b; the joined-string key it replaced made this statement false) *)
 
-    FULL STATEMENT (false of the faithful model — DESIGN F4):
-      forall e st l k name parent st' d,
-        cache_genuine e (s_cache st) ->
-        get_pipeline e st l k name parent = Ok (st', d) ->
-        get_pipeline_path e name parent = Ok (d_file d).
-    [Loader.get_pipeline] keys its cache by [f'{parent}+{name}']: two different requests can
-    share a key, and the second is then served the first one's pipeline. *)
-Theorem C19_cached_lookup_refuted :
-  exists e st l k name parent st' d,
-    cache_genuine e (s_cache st) /\
-    get_pipeline e st l k name parent = Ok (st', d) /\
-    get_pipeline_path e name parent = Ok "/x+a/b.yaml" /\
-    d_file d = "/x/a+b.yaml".
-Proof. exact cached_lookup_refuted. Qed.
-Print Assumptions C19_cached_lookup_refuted.
+(** the key identifies two requests only when they have the same name and the same parent
+    text — [None] and [''] both meaning "no parent", [str] and [Path] not distinguished *)
+Theorem C19_cache_key_faithful : forall parent name parent' name',
+  cache_key parent name = cache_key parent' name' ->
+  name = name' /\ p_truthy parent = p_truthy parent' /\
+  (p_truthy parent = true -> p_str parent = p_str parent').
+Proof. exact cache_key_faithful. Qed.
+Print Assumptions C19_cache_key_faithful.
 
-(** proved version: when no other request shares the key *)
-Theorem C19_cached_lookup_partial : forall e st l k name parent st' d,
-  cache_genuine e (s_cache st) -> collision_free e (s_cache st) name parent ->
+(** a look-up served through the cache (whose entries all stem from real loads, which
+    [C19_run_invariant] shows of every reachable state) returns the file that the uncached
+    look-up of the same (parent, name) request finds — for every cache content *)
+Theorem C19_cached_lookup : forall e st l k name parent st' d,
+  cache_genuine e (s_cache st) ->
   get_pipeline e st l k name parent = Ok (st', d) ->
   get_pipeline_path e name parent = Ok (d_file d).
-Proof. exact cached_lookup_partial. Qed.
-Print Assumptions C19_cached_lookup_partial.
+Proof. exact cached_lookup. Qed.
+Print Assumptions C19_cached_lookup.
 
 (** * Non-vacuity: concrete layouts, evaluated *)
 
@@ -272,8 +269,8 @@ Proof.
   split; [apply sys_inv_init|]. split; vm_compute; reflexivity.
 Qed.
 
-(** the cache-key collision, end to end: [/x/c0] runs [a+b] (found next to it), then
-    [/x+a/c1], whose child [b] should be [/x+a/b.yaml] — and is served [/x/a+b.yaml] *)
+(** the former cache-key collision, end to end: [/x/c0] runs [a+b] (found next to it), then
+    [/x+a/c1], whose child [b] is [/x+a/b.yaml] — and that is the file that runs *)
 Definition w2 : world :=
   mk_world "/cwd" "pipelines" "/blt"
     [("/x/c0.yaml", mkpipe "c0" false None [mkcall "a+b" default_opts; mkcall "/x+a/c1" default_opts]);
@@ -285,7 +282,9 @@ Definition w2 : world :=
 Definition ids_run (r : state * list event * status) : list string :=
   let '(_, ev, _) := r in map (fun e => nth 1 e "") ev.
 
-Example C19_collision_end_to_end :
+Example C19_cached_lookup_nonvacuous :
   get_pipeline_path (w_env w2) "b" (PPath "/x+a") = Ok "/x+a/b.yaml" /\
-  ids_run (run_pipeline FUEL w2 state0 None None "/x/c0" PNone) = ["c0"; "x/a+b"; "c1"; "x/a+b"].
-Proof. vm_compute. split; reflexivity. Qed.
+  ids_run (run_pipeline FUEL w2 state0 None None "/x/c0" PNone) = ["c0"; "x/a+b"; "c1"; "x+a/b"] /\
+  cache_key (PPath "/x") "a+b" <> cache_key (PPath "/x+a") "b" /\
+  cache_key PNone "q" = cache_key (PStr "") "q".
+Proof. vm_compute. repeat split; try reflexivity; discriminate. Qed.
